@@ -1,4 +1,5 @@
 import IpcModel.Lemmas.RouterProof
+import IpcModel.Lemmas.RouterSysProof
 /-!
 # C17 — stopping a router, by shutdown or proxy drop, is clean and complete
 
@@ -6,9 +7,13 @@ The router thread is `run fixed st events`, where `events` is the flattened stre
 Theorems quantify over every state `st` (any number of live routes, anything queued) and every continuation `es` of the
 event stream (further traffic on old routes, closures, wake-ups …).
 
-Full statement of the remaining clause, **not proved here** (covered by the harness only, see DESIGN.md §5 C17):
-`C17_returns_stopped / C17_no_deadlock` — in the closed system proxy + mutex + router + clients + re-entrant handlers, every
-`shutdown()` call returns, and only after the `stop` effect.  The sequential part is `C17_shutdown_sequential` below.
+The closed system — client threads calling `add_route` / `shutdown` (any number of times, concurrently), the proxy mutex,
+the crossbeam queue, the wake-up channel, the router thread and callbacks that re-enter `add_route` on the router thread
+— is the small-step model `RSys`; over all its interleavings: `C17_returns_stopped` (a `shutdown()` call, first or late,
+returns only in states where the router has stopped and holds no callback), `C17_stopped_forever`, and `C17_no_deadlock`
+(no reachable state in which an unfinished call has no enabled step).  The code before the fix (`RSys.legacy`: waiting for
+the acknowledgement while holding the mutex) has a reachable stuck state — exhibited below.
+Not reached by a theorem: fairness of the OS scheduler (that enabled steps are eventually taken).
 -/
 namespace C17
 open Router
@@ -86,5 +91,48 @@ example : (run legacy ⟨[(1, 7)], 2, [], false, []⟩ [.wakeClosed]).log = [.pa
 /-- repaired, same inputs -/
 example : (run fixed ⟨[(1, 7)], 2, [.shutdown 0], false, []⟩ [.wake, .msg 1 42]).log = [.dropH 7, .ack 0, .stop] := by decide
 example : (run fixed ⟨[(1, 7)], 2, [], false, []⟩ [.wakeClosed]).log = [.dropH 7, .stop] := by decide
+
+/-! ### closed system: proxy, mutex, router thread, client threads, re-entrant callbacks -/
+
+/-- the invariant holds initially (any client programs, any registered routes, any pending traffic) and along every run -/
+theorem C17_sys_inv (threads : List (List RSys.Call)) (routes : List Nat) (traffic : List (Nat × Nat)) (as : List RSys.Act)
+    (st' : RSys.St) (h : RSys.run RSys.fixed (RSys.init threads routes traffic) as = some st') : RSys.Inv st' :=
+  RSys.inv_run _ st' as (RSys.inv_init threads routes traffic) h
+
+/-- **C17_returns_stopped** — every `shutdown()` call, first or late, from any thread, returns only when the router thread
+has stopped and every callback has been dropped. -/
+theorem C17_returns_stopped (st st' : RSys.St) (i : Nat) (hi : RSys.Inv st) (hw : (st.threads i).ph = .waiting)
+    (h : RSys.step RSys.fixed st (.thread i) = some st') :
+    st.rpc = .stopped ∧ st.handlers = [] ∧ st'.rpc = .stopped ∧ st'.handlers = [] :=
+  RSys.shutdown_returns_stopped st st' i hi hw h
+
+/-- **C17_stopped_forever** — after the stop no callback is invoked and no route is registered, whatever the other threads do -/
+theorem C17_stopped_forever (st st' : RSys.St) (a : RSys.Act) (hs : st.rpc = .stopped) (hh : st.handlers = [])
+    (h : RSys.step RSys.fixed st a = some st') : st'.rpc = .stopped ∧ st'.handlers = [] ∧ st'.invokedLog = st.invokedLog :=
+  RSys.stopped_forever RSys.fixed st st' a hs hh h
+
+/-- **C17_no_deadlock** — in every reachable state in which some proxy call is unfinished, some step is enabled. -/
+theorem C17_no_deadlock (st : RSys.St) (hi : RSys.Inv st) (hnf : ¬ RSys.Finished st) : ∃ a st', RSys.step RSys.fixed st a = some st' :=
+  RSys.no_stuck st hi hnf
+
+/-- **C17_wake_channel_bounded** — with coalesced wake-ups (a request sends a wake-up only if none is pending; the router clears
+the flag before it serves the queue) the wake-up channel never holds more than one message, in every reachable state of
+every variant: no `send` on it can ever block, whoever issues it — in particular not the router thread itself when a
+callback registers routes.  (Before this repair every request sent its own wake-up: 278 registrations made by callbacks
+within one `select` batch filled the channel, and the router thread blocked on its own wake-up while holding the proxy
+mutex — reproduced on the real crate, see DESIGN.md §12.5 D15; `router --mode selfwake` is the regression case.) -/
+theorem C17_wake_channel_bounded (V : RSys.Variant) (threads : List (List RSys.Call)) (routes : List Nat) (traffic : List (Nat × Nat))
+    (as : List RSys.Act) (st' : RSys.St) (h : RSys.run V (RSys.init threads routes traffic) as = some st') : st'.wakeq ≤ 1 :=
+  (RSys.winv_run V _ st' as (RSys.winv_init threads routes traffic) h).atMostOne
+
+/-- sensitivity — the code before the fix: a callback re-entering `add_route` on the router thread while another thread waits
+for the acknowledgement holding the mutex: after these three steps nothing is enabled and two calls are unfinished -/
+def legacyCfg : RSys.St := RSys.init [[.shutdown], [.shutdown]] [1] [(1, 1)]
+example : (RSys.run RSys.legacy legacyCfg [.deliver 0, .thread 1, .thread 1]).map (fun st =>
+      (RSys.step RSys.legacy st (.thread 0)).isNone && (RSys.step RSys.legacy st (.thread 1)).isNone &&
+      (RSys.step RSys.legacy st .router).isNone && (RSys.step RSys.legacy st (.deliver 0)).isNone &&
+      !(st.threads 0).todo.isEmpty && !(st.threads 1).todo.isEmpty) = some true := by decide
+/-- the same schedule in the repaired system is not stuck: the router thread gets the mutex -/
+example : (RSys.run RSys.fixed legacyCfg [.deliver 0, .thread 1, .thread 1]).map (fun st => (RSys.step RSys.fixed st .router).isSome) = some true := by decide
 
 end C17
